@@ -1044,3 +1044,114 @@ func vLemmaRestoreReconcile(c *Collection, stored uint64, has bool, change commi
 	}
 	vAssert("replays-iff-id-greater", (vDidReplay == 1) == (change.ID > last) && vDidReplay <= 1)
 }
+
+// ---------------------------------------------------------------------------------------------
+// Column snapshots (C07, C03): whatever a column's Snapshot appends for a block is a put of a present cell at its
+// absolute offset with the stored value (checked for the one arbitrary present cell the bitmap.Range model visits;
+// that every present cell is visited once in ascending order is the model's assumed contract).
+
+func vSnapshotOne(buf []byte, last int32, cur commit.Chunk, snap func(dst *commit.Buffer), check func(r *commit.Reader) bool) {
+	vAssume(last >= 0)
+	dst := commit.VBuffer(buf, last, cur)
+	oldLen := len(buf)
+	snap(dst)
+	if commit.VLen(dst) > oldLen {
+		r := commit.VReaderAt(dst, 0, oldLen, last)
+		vAssert("one-put", r.Next() && r.Type == commit.Put)
+		vAssert("absolute-offset-and-value", check(r))
+		vAssert("nothing-else", commit.VAtEnd(r))
+	}
+}
+
+//@ lemma props=C07,C03,C16
+func vLemmaSnapshotInt32(chs chunks[int32], chunk commit.Chunk, buf []byte, last int32, cur commit.Chunk) {
+	vAssume(int(chunk) < len(chs) && chunk < 1<<17 && len(chs[chunk].fill) == chunkSize/64 && len(chs[chunk].data) == chunkSize)
+	col := makeInt32s().(*numericColumn[int32])
+	col.chunks = chs
+	vSnapshotOne(buf, last, cur, func(dst *commit.Buffer) { col.Snapshot(chunk, dst) }, func(r *commit.Reader) bool {
+		x := r.Index() - chunk.Min()
+		return commit.ChunkAt(r.Index()) == chunk && vBit(chs[chunk].fill, x) && r.Int32() == chs[chunk].data[x]
+	})
+}
+
+//@ lemma props=C07,C03,C16
+func vLemmaSnapshotFloat64(chs chunks[float64], chunk commit.Chunk, buf []byte, last int32, cur commit.Chunk) {
+	vAssume(int(chunk) < len(chs) && chunk < 1<<17 && len(chs[chunk].fill) == chunkSize/64 && len(chs[chunk].data) == chunkSize)
+	col := makeFloat64s().(*numericColumn[float64])
+	col.chunks = chs
+	vSnapshotOne(buf, last, cur, func(dst *commit.Buffer) { col.Snapshot(chunk, dst) }, func(r *commit.Reader) bool {
+		x := r.Index() - chunk.Min()
+		return commit.ChunkAt(r.Index()) == chunk && vBit(chs[chunk].fill, x) && vSame(r.Float64(), chs[chunk].data[x])
+	})
+}
+
+//@ lemma props=C07,C03
+func vLemmaSnapshotBool(data []uint64, chunk commit.Chunk, buf []byte, last int32, cur commit.Chunk) {
+	vAssume(chunk < 1<<17 && len(data) <= 1<<25)
+	col := &columnBool{data: data}
+	vSnapshotOne(buf, last, cur, func(dst *commit.Buffer) { col.Snapshot(chunk, dst) }, func(r *commit.Reader) bool {
+		return commit.ChunkAt(r.Index()) == chunk && int(r.Index()>>6) < len(data) && vBit(data, r.Index()) && r.Bool()
+	})
+}
+
+// For string-valued columns the put is observed at the call of Buffer.PutString (whose own behaviour is C05's
+// round-trip lemma): ghost state records the arguments of the last call.
+//
+//@ contract target=commit.(*Buffer).PutString use verify=no
+func vContractPutStringGhost(b *commit.Buffer, op commit.OpType, idx uint32, value string) {
+	vModifies(b)
+	b.PutString(op, idx, value)
+	vPutStrings++
+	vPutStringOp, vPutStringIdx, vPutStringVal = op, idx, value
+}
+
+var (
+	vPutStrings   int
+	vPutStringOp  commit.OpType
+	vPutStringIdx uint32
+	vPutStringVal string
+)
+
+//@ lemma props=C07,C03,C16
+func vLemmaSnapshotString(chs chunks[string], chunk commit.Chunk, dst *commit.Buffer) {
+	vAssume(int(chunk) < len(chs) && chunk < 1<<17 && len(chs[chunk].fill) == chunkSize/64 && len(chs[chunk].data) == chunkSize && dst != nil)
+	col := &columnString{chunks: chs}
+	vPutStrings = 0
+	col.Snapshot(chunk, dst)
+	if vPutStrings > 0 {
+		x := vPutStringIdx - chunk.Min()
+		vAssert("one-put-per-visited-cell", vPutStrings == 1 && vPutStringOp == commit.Put)
+		vAssert("absolute-offset-and-value", commit.ChunkAt(vPutStringIdx) == chunk && vBit(chs[chunk].fill, x) && vSame(vPutStringVal, chs[chunk].data[x]))
+	}
+}
+
+//@ lemma props=C07,C03
+func vLemmaSnapshotEnum(chs chunks[uint32], names []string, chunk commit.Chunk, dst *commit.Buffer) {
+	vAssume(int(chunk) < len(chs) && chunk < 1<<17 && len(chs[chunk].fill) == chunkSize/64 && len(chs[chunk].data) == chunkSize && dst != nil)
+	vAssume(vForall(0, chunkSize, func(j int) bool { return int(chs[chunk].data[j]) < len(names) })) // every location is interned
+	col := &columnEnum{chunks: chs, data: names}
+	vPutStrings = 0
+	col.Snapshot(chunk, dst)
+	if vPutStrings > 0 {
+		x := vPutStringIdx - chunk.Min()
+		vAssert("one-put-per-visited-cell", vPutStrings == 1 && vPutStringOp == commit.Put)
+		vAssert("absolute-offset-and-value", commit.ChunkAt(vPutStringIdx) == chunk && vBit(chs[chunk].fill, x) && vSame(vPutStringVal, names[chs[chunk].data[x]]))
+	}
+}
+
+// column.Snapshot (the wrapper writeState and CreateIndex use): indexes are skipped; otherwise the buffer is reset and
+// labelled with the column's name before the implementation writes into it.
+//
+//@ model column.Column.Snapshot
+func vModelColumnSnapshot(c Column, chunk commit.Chunk, dst *commit.Buffer) { vDidSnapshot++ }
+
+var vDidSnapshot int
+
+//@ lemma props=C07,C03
+func vLemmaColumnSnapshotWrapper(col *column, chunk commit.Chunk, dst *commit.Buffer) {
+	vAssume(col != nil && dst != nil)
+	vDidSnapshot = 0
+	ok := col.Snapshot(chunk, dst)
+	vAssert("skips-exactly-indexes", ok == !col.IsIndex() && vDidSnapshot == b2i(ok))
+	vAssert("buffer-reset-and-named", !ok || (dst.IsEmpty() && dst.Column == col.name))
+}
